@@ -51,6 +51,15 @@ package main
 // progress was writing that column's file), crash/inflight-new-column-dropped (an event of the flush in progress that
 // comes back without one of its fields).
 //
+// SUFFIX ALLOCATION (segment numbers).  suffix.GetNextSuffix runs once per new SegStore / rotation; a restart reads the
+// suffix file (missing or EMPTY = 0) for the number of its first segment.  Besides the statement boundaries the log has
+// the points `<func>:<n>|~open` that overlaygen puts before every os.WriteFile(name, …): dying there leaves `name`
+// truncated to zero bytes (the open(O_TRUNC) of the call done, its write not) — they belong to the window of the
+// boundary before the call.  The points of writeSuffix / getAndIncrementSuffixFromFile and the ~open points are their
+// own class: the quick tier's cap never drops them (tags suffix-crash, suffix-crash:open).  After the restart the worker
+// ingests+flushes one more event into the SAME stream, searches, ROTATES the new segment and searches again
+// (rpost= / rpcnt=).
+//
 // PropFail (independent of the model): see checkPoint.
 
 import (
@@ -120,7 +129,7 @@ const crashNewVid = 1000000
 
 func init() {
 	register(&Suite{Name: "crash", Parallel: 3, Gen: genCrash, Exec: execCrash,
-		Rule: "ingest histories (batches, buffer flushes, rotations) × EVERY crash point (statement boundary) of the flush/rotate/segmeta/suffix/checksum-file writer functions, grouped by the number of completed model steps; per point: process A killed at the point, process B restarted on the same directory, 5 queries, one more ingest+flush, 2 queries; non-trivial = at least one flush had completed or was in flight"})
+		Rule: "ingest histories (batches, buffer flushes, rotations) × EVERY crash point (statement boundary) of the flush/rotate/segmeta/suffix/checksum-file writer functions, grouped by the number of completed model steps; per point: process A killed at the point, process B restarted on the same directory, 5 queries + per-flush window and per-column queries, one more ingest+flush into the same stream, 2 queries, rotation of the new segment, 2 queries; the points of the suffix allocation (writeSuffix/getAndIncrementSuffixFromFile) and the points between the open(O_TRUNC) and the write of every os.WriteFile are never dropped by the quick tier's cap; non-trivial = at least one flush had completed or was in flight"})
 }
 
 type crashEvent struct {
@@ -284,6 +293,7 @@ type crashPoint struct {
 	calls []string
 	cmd   int  // worker command in progress (0 = none: inside a batch or between commands)
 	rot   bool // a point of checkAndRotateColFiles was reached in this command (the buffer-flush part is over)
+	open  bool // `~open` point: dying here leaves the target of the next os.WriteFile truncated
 	done  int  // last command that returned
 	m     int  // markers completed up to and including this point
 }
@@ -398,10 +408,15 @@ func parseCrashLog(path, finalWait string) (pts []crashPoint, kinds []string, fw
 				m++
 				kinds = append(kinds, mk)
 			}
-			pts = append(pts, crashPoint{k: k, label: sp[1], fn: fn, calls: calls, cmd: cmd, rot: rot, done: done, m: m})
+			pts = append(pts, crashPoint{k: k, label: sp[1], fn: fn, calls: calls, cmd: cmd, rot: rot, done: done, m: m, open: hasCall(calls, "~open")})
 		}
 	}
 	return pts, kinds, finalWait
+}
+
+// the points of the suffix allocation protocol (and every between-the-syscalls point): a class of their own
+func (p crashPoint) suffixClass() bool {
+	return p.open || p.fn == "writeSuffix" || p.fn == "getAndIncrementSuffixFromFile"
 }
 
 // ---- children
@@ -504,6 +519,9 @@ func dryRun(h *crashHist) *crashDry {
 type crashAnswer struct {
 	vis, flt, rng, post []int
 	cnt, pcnt           int
+	rpost               []int // `*` after the restarted process also rotated its new segment
+	rpcnt               int
+	reissued            []string // segment directories that existed before the restart and that the restarted writer wrote into
 	sum                 uint64
 	sumOK               bool
 	next                int
@@ -703,11 +721,15 @@ func runChildBOnce(h *crashHist, dir string, limitS int) (a crashAnswer) {
 		q(c + "=*")
 		names = append(names, c+"=*")
 	}
-	names = append(names, "post *", "post count")
+	names = append(names, "post *", "post count", "post-rotation *", "post-rotation count")
 	nj, _ := eventJSON(crashNewVid, e2eBase+999, []kv{{"a", "s" + hexs("xN")}, {"g", "s" + hexs("k")}}, false)
 	fmt.Fprintf(&in, "batch %s\nflush\n", hexs(nj))
 	q("*")
 	q("* | stats count")
+	in.WriteString("rotate\n")
+	q("*")
+	q("* | stats count")
+	dirsBefore := segDirs(dir)
 	cmd := exec.Command(os.Args[0], "e2eworker")
 	cmd.Stdin = &in
 	cmd.Env = childEnv("VERIF_DATA_DIR="+filepath.Join(dir, "d"), "VERIF_WAIT_SYNC=1", "VERIF_QUERY_TIMEOUT_S="+strconv.Itoa(limitS))
@@ -842,6 +864,12 @@ func runChildBOnce(h *crashHist, dir string, limitS int) (a crashAnswer) {
 		a.errs = append(a.errs, "query: post count: unreadable measure")
 	}
 	a.pcnt = int(c)
+	a.rpost = vids(rs[ri+2])
+	c, ok = measure(rs[ri+3], "count(*)")
+	if !ok {
+		a.errs = append(a.errs, "query: post-rotation count: unreadable measure")
+	}
+	a.rpcnt = int(c)
 	after := segFiles(dir)
 	a.next = -1
 	for p, sum := range before {
@@ -856,7 +884,38 @@ func runChildBOnce(h *crashHist, dir string, limitS int) (a crashAnswer) {
 			}
 		}
 	}
+	// the segment number the restarted writer took must be FRESH: every directory it wrote data files into (new or
+	// changed .csg/.cmi/.bsu/.sst) must not have existed before the restart
+	wrote := map[string]bool{}
+	for p, sum := range after {
+		if before[p] != sum {
+			wrote[filepath.Dir(p)] = true
+		}
+	}
+	for d := range wrote {
+		if dirsBefore[d] {
+			a.reissued = append(a.reissued, strings.TrimPrefix(d, dir))
+		}
+	}
+	sort.Strings(a.reissued)
+	for _, d := range a.reissued {
+		if n, err := strconv.Atoi(filepath.Base(d)); err == nil && a.next == -1 {
+			a.next = n
+		}
+	}
 	return
+}
+
+// the segment directories (<stream>/<number>) that exist below the data directory
+func segDirs(dir string) map[string]bool {
+	res := map[string]bool{}
+	filepath.Walk(filepath.Join(dir, "d"), func(p string, fi os.FileInfo, err error) error {
+		if err == nil && fi.IsDir() && digitsOnly(filepath.Base(p)) {
+			res[p] = true
+		}
+		return nil
+	})
+	return res
 }
 
 func showInts(l []int) string {
@@ -907,7 +966,23 @@ func (a *crashAnswer) out(h *crashHist) string {
 	if hasN {
 		ps += "+N"
 	}
-	s := fmt.Sprintf("vis=%s cnt=%d flt=%s rng=%s sum=%s post=%s pcnt=%d next=%d", showInts(a.vis), a.cnt, showInts(a.flt), showInts(a.rng), h.sumSet(a.sum), ps, a.pcnt, a.next)
+	withN := func(l []int) string {
+		rest := make([]int, 0, len(l))
+		n := false
+		for _, v := range l {
+			if v == crashNewVid {
+				n = true
+			} else {
+				rest = append(rest, v)
+			}
+		}
+		r := showInts(rest)
+		if n {
+			r += "+N"
+		}
+		return r
+	}
+	s := fmt.Sprintf("vis=%s cnt=%d flt=%s rng=%s sum=%s post=%s pcnt=%d rpost=%s rpcnt=%d next=%d", showInts(a.vis), a.cnt, showInts(a.flt), showInts(a.rng), h.sumSet(a.sum), ps, a.pcnt, withN(a.rpost), a.rpcnt, a.next)
 	dash := func(l []string, sep string) string {
 		if len(l) == 0 {
 			return "-"
@@ -1154,6 +1229,32 @@ func checkPoint(h *crashHist, p crashPoint, a *crashAnswer) []PropFail {
 	if a.pcnt != a.cnt+1 {
 		add("overwritten", fmt.Sprintf("stats count went from %d to %d by ingesting one event", a.cnt, a.pcnt))
 	}
+	// … nor does the rotation of the segment the restarted writer opened
+	checkSet("search * after one more ingest+flush and the rotation of the new segment", a.rpost, true)
+	rc := map[int]bool{}
+	for _, v := range a.rpost {
+		rc[v] = true
+	}
+	for _, v := range a.vis {
+		if !rc[v] {
+			add("overwritten", fmt.Sprintf("event %d was returned after the restart but no longer after one more ingest+flush and the rotation of the new segment", v))
+			break
+		}
+	}
+	if !rc[crashNewVid] {
+		add("post-restart-ingest-lost", "the event ingested and flushed after the restart is not returned once its segment is rotated")
+	}
+	if a.rpcnt != a.cnt+1 {
+		add("overwritten", fmt.Sprintf("stats count went from %d to %d by ingesting one event and rotating its segment", a.cnt, a.rpcnt))
+	}
+	// the restarted writer must take a segment number no directory of the stream has
+	if len(a.reissued) > 0 {
+		kind := "boundary"
+		if p.open {
+			kind = "between-open-and-write"
+		}
+		addPlain("crash/segment-number-reissued/"+kind+"@"+p.fn, fmt.Sprintf("the restarted writer took a segment number that was already in use: it wrote into the existing segment director%s %s (the suffix file read after the restart was behind the numbers handed out before the crash)", map[bool]string{true: "y", false: "ies"}[len(a.reissued) == 1], strings.Join(a.reissued, ", ")))
+	}
 	return fails
 }
 
@@ -1268,6 +1369,9 @@ func execCrash(line string) Result {
 				fnSeen[p.fn] = true
 				keep[i] = true
 			}
+			if p.open || p.fn == "writeSuffix" { // once per new segment only: a sample over the window would rarely hit them
+				keep[i] = true
+			}
 		}
 		for i, p := range wpts {
 			if keep[i] {
@@ -1332,6 +1436,15 @@ func execCrash(line string) Result {
 		}
 		if x.ok {
 			r.Tags = append(r.Tags, "in:"+x.p.fn)
+			if x.p.suffixClass() {
+				r.Tags = append(r.Tags, "suffix-crash")
+				if x.p.open {
+					r.Tags = append(r.Tags, "suffix-crash:open")
+				}
+				if x.p.done > 0 || x.p.cmd > 0 {
+					r.Tags = append(r.Tags, "suffix-crash:segment-0-has-data")
+				}
+			}
 		}
 	}
 	r.Nontrivial = nontrivial
